@@ -33,6 +33,10 @@ def mask(out, run_dir=None):
     return TIME_RE.sub("<t>s", out)
 
 
+def write_keep_out(d, files):
+    R.write_files(d, files)
+
+
 def gen_tree(rng, k):
     """a small multi-file program; returns {path: text}"""
     n = rng.range(2, 5)
@@ -65,14 +69,34 @@ def gen_tree(rng, k):
     return files
 
 
+BIG_PREVIOUS = {"main.capy": "S :: struct { a: i64, b: i64, c: [16]i64 };\n" + "".join(f"f{i} :: (x: i64) -> i64 {{ s : S; s.a = x * {i + 3}; s.c[{i % 16}] = s.a + {i}; s.c[{i % 16}] + s.a }}\n" for i in range(24)) +
+                "main :: () -> i32 {\n    t : i64 = 0;\n" + "".join(f"    t = t + f{i}(t + {i});\n" for i in range(24)) + "    i32.(t % 100)\n}\n"}
+
+STRUCT_CAST = {"main.capy": "A :: struct { a: i64, b: i32, c: u8, d: i16, e: u64, f: i8 };\nB :: struct { f: i16, e: u64, d: i64, c: u16, b: i64, a: i64 };\n"
+               "conv :: (x: A) -> B { B.(x) }\nmain :: () -> i32 {\n    x := A.{ a = 1, b = 2, c = 3, d = 4, e = 5, f = 6 };\n    y := conv(x);\n"
+               "    z : B = B.(A.{ a = 7, b = 8, c = 9, d = 10, e = 11, f = 12 });\n    i32.(y.a + y.b + i64.(y.c) + y.d + i64.(y.e) + i64.(y.f) + z.a)\n}\n"}
+
+
 def one(job):
     idx, files, kind, work = job
     d = os.path.join(work, f"p{idx}")
     runs = []
-    for k in range(3):
+    n_cli = 6 if kind == "struct_cast" else 3
+    for k in range(n_cli):
         dk = os.path.join(d, f"cli{k}")
-        c = R.compile_capy(dk, files)
-        h = hashlib.sha256(open(c.obj, "rb").read()).hexdigest() if c.obj else None
+        if k == 2 and kind != "struct_cast":
+            # "regardless of previous compilations": the third build happens in a directory that already holds the (larger)
+            # output of another program under the same name
+            R.compile_capy(dk, BIG_PREVIOUS)
+            for f in BIG_PREVIOUS:
+                if f not in files:
+                    os.remove(os.path.join(dk, f))
+            write_keep_out(dk, files)
+            c = R.compile_capy(dk, files, keep_out=True)
+        else:
+            c = R.compile_capy(dk, files)
+        # (a rejected build writes nothing, so in the dirty directory the older object is still there: it is not this build's output)
+        h = hashlib.sha256(open(c.obj, "rb").read()).hexdigest() if (c.obj and c.rc == 0) else None
         runs.append((c, h, mask(c.out, dk)))
     pipes = []
     dp = os.path.join(d, "probe")
@@ -102,6 +126,9 @@ def run(tier, seed):
         jobs.append((len(jobs), {"main.capy": m}, "mutant", work))
     for k in range(n_tree):
         jobs.append((len(jobs), gen_tree(rng, k), "tree", work))
+    # a struct-to-struct cast with reordered and retyped members, built six times: per-member code emitted in hash order would
+    # coincide between two processes only with probability 1/720
+    jobs.append((len(jobs), STRUCT_CAST, "struct_cast", work))
     results = C.pmap(one, jobs)
     viol, inconc, samples, sigs = [], [], [], set()
     evals = 0
